@@ -18,7 +18,13 @@ Families (every element of each is executed; nothing is sampled):
      k = 1 .. CAP/256+4 and k in {64,100,255,256,1000,4096,20000,65535}: must raise once the reference length exceeds
      CAP+512, and the peak memory allocated during the call (tracemalloc) must stay below 8*CAP
 
+  F  held results: for every ordered pair (x, y) of strings over {00,01,FF} with len <= 4 (thorough 5) the *un-copied* result of
+     compress(x) is held while compress(y) runs (likewise expand on their encodings, and compress fed its own held result):
+     a result must keep its bytes after later calls and must not change its input
+
 Clauses:
+  result-stable a result returned by compress/expand still holds the same bytes after any later call; feeding a held result
+                back in gives what a copy of it gives
   roundtrip     expand(compress(s)) == s for len(s) <= CAP   (site = the side the reference blames)
   canonical     no ``00`` in compress(s) is followed by ``00`` or is last (count in 1..255, no wrap form, no lone zero)
   length-bound  len(compress(s)) <= len(reference greedy encoding) (runs are split only when the count byte is full)
@@ -306,6 +312,45 @@ def _unit_D_roundtrip(_):
     return part.dump()
 
 
+def _held_pair(part: Part, x: bytes, y: bytes):
+    part.count("evaluations")
+    part.count("F_cases")
+    w = {"kind": "held", "x": x, "y": y}
+    ex_c = ref_compress(x)
+    try:
+        rx = compress(x)
+        snap = bytes(rx)
+        compress(y)
+        if bytes(rx) != snap:
+            part.violation("result-stable", S_COMP + "[held-result]", w, f"compress({x.hex()}) returned {snap.hex()}; after compress({y.hex()}) "
+                                                                         f"the same object holds {bytes(rx).hex()}")
+        again = bytes(compress(rx))
+        if again != bytes(compress(snap)) or bytes(rx) != snap:
+            part.violation("result-stable", S_COMP + "[result-as-input]", w, f"compress(compress({x.hex()})) on the held result gave {again.hex()}, "
+                                                                             f"on a copy {bytes(compress(snap)).hex()}; held result now {bytes(rx).hex()}")
+        dx = expand(ex_c)
+        dsnap = bytes(dx)
+        expand(ref_compress(y))
+        if bytes(dx) != dsnap or dsnap != x:
+            part.violation("result-stable", S_EXP + "[held-result]", w, f"expand of the encoding of {x.hex()} returned {dsnap.hex()}; after "
+                                                                        f"expanding the encoding of {y.hex()} the same object holds {bytes(dx).hex()}")
+    except Exception as e:
+        part.violation("result-stable", S_COMP + "[held-result]", w, f"raised {e!r}")
+    if x != y and x and y:
+        part.mark_nontrivial(("held", x, y))
+
+
+def _unit_F(arg):
+    prefix, n = arg
+    part = Part()
+    strings = [b""] + [b"".join(t) for k in range(1, n + 1) for t in itertools.product(ENC_ALPHA, repeat=k)]
+    xs = [x for x in strings if x[:1] == prefix] if prefix else [b""]
+    for x in xs:
+        for y in strings:
+            _held_pair(part, x, y)
+    return part.dump()
+
+
 ADV_K = tuple(range(1, CAP // 256 + 5)) + (64, 100, 255, 256, 1000, 4096, 20000, 65535)
 
 
@@ -340,13 +385,16 @@ def run(run: Run):
     units.append((_unit_D_roundtrip, None))
     for k in ADV_K:
         units.append((_unit_E, k))
+    for pre in (None,) + ENC_ALPHA:
+        units.append((_unit_F, (pre, 4 if quick else 5)))
     # biggest units first so the pool drains evenly
     for d in pmap(_call, units, run.jobs, chunksize=1):
         run.merge(d)
     run.rule = (f"A: all strings over {{00,01,FF}} up to length {enc_len} through compress->expand; B: every zero-run length 0..1100 x 9 "
                 f"left/right contexts (encode + wrap-form decode); C: all decoder inputs over {{00,01,02,FF}} up to length {dec_len}; "
                 f"D: every body reference length CAP-560..CAP+600 x 2 body kinds x {len(TAILS)} tail tokens; E: {len(ADV_K)} sizes x 6 adversarial "
-                "shapes with allocation tracing. distinct_nontrivial = distinct zero-run signatures (run lengths + start/end flags) of "
+                "shapes with allocation tracing; F: every ordered pair of strings over {00,01,FF} up to length 4 (thorough 5) with the first call's result held "
+                "across the second. distinct_nontrivial = distinct zero-run signatures (run lengths + start/end flags) of "
                 "plaintexts with a run >= 2, plus distinct zero-token signatures (continuations, count, trailing) of decoder inputs "
                 "with a wrap / trailing token or a reference length over the cap")
     run.assumptions += [
@@ -368,6 +416,9 @@ def _call(u):
 
 def replay(w):
     part = Part()
+    if w["kind"] == "held":
+        _held_pair(part, bytes(w["x"]), bytes(w["y"]))
+        return list(part.viol.values())
     data = w["data"] if "data" in w else _unrle(w["rle"])
     if w["kind"] == "encode":
         check_encode(part, bytes(data), "replay")
